@@ -15,6 +15,10 @@ type Shape struct {
 	T    geom.GeometryType
 	N    int     // Point: 0 empty / 1 full; LineString: number of points (0 = empty); Polygon: number of rings (0 = empty)
 	Kids []Shape // Multi*/GeometryCollection members
+	// RingLen is the number of points of each polygon ring (0 means 5: a closed
+	// quadrilateral). Shorter rings make invalid polygons, which the codecs
+	// must still carry when validation is off.
+	RingLen int
 }
 
 func (s Shape) String() string {
@@ -31,6 +35,9 @@ func (s Shape) write(sb *strings.Builder) {
 		fmt.Fprintf(sb, "L%d", s.N)
 	case geom.TypePolygon:
 		fmt.Fprintf(sb, "Y%d", s.N)
+		if s.RingLen != 0 {
+			fmt.Fprintf(sb, "r%d", s.RingLen)
+		}
 	default:
 		sb.WriteString(map[geom.GeometryType]string{geom.TypeMultiPoint: "MP", geom.TypeMultiLineString: "ML", geom.TypeMultiPolygon: "MY", geom.TypeGeometryCollection: "GC"}[s.T])
 		sb.WriteByte('[')
@@ -255,7 +262,11 @@ func buildPoly(s Shape, ct geom.CoordinatesType, sup Supplier, idx *int) geom.Po
 	}
 	var rings []geom.LineString
 	for r := 0; r < s.N; r++ {
-		cs := sup.Prim(*idx, 'R', r, 5)
+		n := 5
+		if s.RingLen != 0 {
+			n = s.RingLen
+		}
+		cs := sup.Prim(*idx, 'R', r, n)
 		rings = append(rings, geom.NewLineString(toSeq(cs, ct)))
 	}
 	*idx++
@@ -353,6 +364,9 @@ func (c *CellSupplier) Prim(idx int, kind byte, ring int, n int) []geom.Coordina
 			out = append(out, mk(p[0], p[1]))
 		}
 		out = append(out, out[0])
+		if n < 5 {
+			return out[:n] // short (invalid) ring
+		}
 		return out
 	}
 }
@@ -383,7 +397,7 @@ func (f *FloatSupplier) next() geom.Coordinates {
 
 func (f *FloatSupplier) Prim(idx int, kind byte, ring int, n int) []geom.Coordinates {
 	var out []geom.Coordinates
-	if kind == 'R' {
+	if kind == 'R' && n >= 4 {
 		for i := 0; i < n-1; i++ {
 			out = append(out, f.next())
 		}
@@ -391,6 +405,26 @@ func (f *FloatSupplier) Prim(idx int, kind byte, ring int, n int) []geom.Coordin
 	}
 	for i := 0; i < n; i++ {
 		out = append(out, f.next())
+	}
+	return out
+}
+
+// ShortRingShapes are invalid polygons with rings of 1, 2 and 3 points, alone
+// and at the first / last position of a MultiPolygon and a GeometryCollection
+// (codecs must carry them when validation is off; length checks that assume
+// four points per ring must not reject them).
+func ShortRingShapes() []Shape {
+	var out []Shape
+	pt := Shape{T: geom.TypePoint, N: 1}
+	good := Shape{T: geom.TypePolygon, N: 1}
+	for _, rl := range []int{1, 2, 3} {
+		for _, nr := range []int{1, 2} {
+			y := Shape{T: geom.TypePolygon, N: nr, RingLen: rl}
+			out = append(out, y,
+				Shape{T: geom.TypeMultiPolygon, Kids: []Shape{y}}, Shape{T: geom.TypeMultiPolygon, Kids: []Shape{good, y}}, Shape{T: geom.TypeMultiPolygon, Kids: []Shape{y, good}},
+				Shape{T: geom.TypeGeometryCollection, Kids: []Shape{pt, y}}, Shape{T: geom.TypeGeometryCollection, Kids: []Shape{y, pt}},
+				Shape{T: geom.TypeGeometryCollection, Kids: []Shape{{T: geom.TypeGeometryCollection, Kids: []Shape{y}}}})
+		}
 	}
 	return out
 }
